@@ -2,6 +2,7 @@ import Oas3Model.Driver.Util
 import Oas3Model.Driver.Resp
 import Oas3Model.Driver.Client
 import Oas3Model.Model.Server
+import Oas3Model.Model.ServerParams
 open Lean Oas3.Driver Oas3.Path Oas3.Client Oas3.Server Oas3.Resp Oas3.Status
 
 namespace Oas3.Driver.Server
@@ -28,6 +29,18 @@ def statusNum (j : Json) : Option Nat :=
   | _ => none
 
 def sortStrs (l : List String) : List String := (l.toArray.qsort (· < ·)).toList
+
+/-- `serde(rename="x")` among the attributes of a field -/
+def renameOf (attrs : List Json) : Option (List Char) :=
+  attrs.findSome? fun a => match a with
+    | .str t => if t.startsWith "serde(" then (match t.splitOn "rename=\"" with | _ :: r :: _ => some ((r.splitOn "\"").head!.toList) | _ => none) else none
+    | _ => none
+
+def sfieldOf (f : Json) : SField :=
+  { ident := (strOf f "name").toList, rename := renameOf ((arr (fieldD f "attrs" (Json.arr #[]))).toOption.getD []), ty := (strOf f "ty").toList }
+
+def locName : Loc → String
+  | .path => "path" | .query => "query" | .header => "header" | .cookie => "cookie"
 
 def run : Handler := fun req => do
   let inp ← field req "in"
@@ -144,6 +157,25 @@ def run : Handler := fun req => do
         if nFields "Query" != nq then return verdict false [] s!"{method} {path}: {nFields "Query"} query fields for {nq} declared query parameters"
         if nFields "Header" != nh then return verdict false [] s!"{method} {path}: {nFields "Header"} header fields for {nh} declared header parameters"
         if nFields "Path" != decl.length then return verdict false [] s!"{method} {path}: {nFields "Path"} path fields for {decl.length} template/declared path parameters"
+        -- member by member: what the handler is handed for each parameter of the MERGED set (an operation-level
+        -- parameter replaces the path-item one of the same location and name)
+        let wOf (o : Json) : List WParam := (Oas3.Driver.Client.wparamsOf (fieldD o "params" (Json.arr #[]))).toOption.getD []
+        let sharedW := ((opsJ.filter fun o => strOf o "path" == path).flatMap fun o => (wOf o).filter (·.pathLevel)).foldl
+          (fun acc q => if acc.any (fun x => x.loc == q.loc && x.name == q.name) then acc else acc ++ [q]) []
+        let mergedW := collectW (sharedW ++ (wOf d).filter (!·.pathLevel))
+        let declaredPath := (mergedW.filter (·.loc == .path)).map (·.name)
+        let synth : List WParam := (decl.filter fun (n, _) => !declaredPath.contains n).map fun (n, _) => { name := n, loc := .path, item := .string, required := true }
+        let mergedAll := mergedW ++ synth
+        if !mergedAll.any (·.hasDefault) then
+          for (loc, sfx) in [(Loc.query, "Query"), (Loc.header, "Header"), (Loc.path, "Path")] do
+            let fields : List SField := match (fieldD impl "items" Json.null).getObjVal? ("struct:" ++ reqTy ++ sfx) with
+              | .ok st => ((arr (fieldD st "fields" (Json.arr #[]))).toOption.getD []).map sfieldOf
+              | .error _ => []
+            if !locOk mergedAll loc fields then
+              let msg := match firstBad mergedAll loc fields with
+                | some p => s!"{locName loc} parameter `{String.ofList p.name}` (required = {p.required}, array = {p.isArray}, type {reprStr p.item}) has no fitting member in {reqTy}{sfx}: members {fields.map fun f => (String.ofList (memberKey loc f), String.ofList f.ty)}"
+                | none => s!"{reqTy}{sfx} has members beyond the declared {locName loc} parameters"
+              return verdict false [] s!"{method} {path}: {msg}"
       | none => pure ()
     -- no two routes may claim the same (pattern shape, method) or conflicting patterns
     let keys := routesI.map fun r => match r.splitOn " " with | [ax, rm, _, _] => (String.ofList (shape ax.toList), rm) | _ => ("", "")
